@@ -42,6 +42,25 @@ def healthy_case(rng, k, transports, odd=False):
             "resume": rng.chance(2, 3), "scan": rng.choice(["dir", "dir", "paths"]), "timeout_ms": 8000}
 
 
+def sibling_cases(rng):
+    """trees in which one entry's name is a plain string prefix of its neighbour in sorted order: an empty directory next to a file or
+    directory named like it plus a suffix (`docs/`, `docs.txt`; `data/logs/`, `data/logs-old/x`), a file next to such a directory"""
+    out = []
+    shapes = [
+        ([{"p": "docs.txt", "n": 10}, {"p": "readme", "n": 3}], ["docs", "zz"]),
+        ([{"p": "data/logs-old/x.log", "n": 70}, {"p": "data/a", "n": 1}], ["data/logs"]),
+        ([{"p": "lib.go", "n": 65}, {"p": "lib/a.txt", "n": 5}], ["lib-old", "li"]),
+        ([{"p": "a/b0", "n": 0}, {"p": "a/b.c", "n": 64}], ["a/b", "a/b-"]),
+        ([{"p": "x", "n": 2}], ["x1", "x1/y", "x1/y2"]),
+    ]
+    for i, (files, dirs) in enumerate(shapes):
+        for noroot in (True, False):
+            out.append({"name": f"sib{i}-{'noroot' if noroot else 'root'}", "files": [dict(f, s=100 + i) for f in files], "dirs": dirs, "chunk": 64,
+                        "streams": rng.choice([1, 2, 3]), "conns": 1, "transport": rng.choice(["netsim", "mock"]), "noroot": noroot,
+                        "resume": rng.chance(1, 2), "scan": "dir", "timeout_ms": 8000})
+    return out
+
+
 def run_xfer(ctx, exe, name, cases, timeout=1500):
     cpath = os.path.join(ctx.workdir, name + ".cases")
     with open(cpath, "w") as f:
